@@ -72,9 +72,26 @@ def execute(prop, tier, plan, seed, wdir):
             continue
         batches.append((f"b1-{gen['cfg']}", scen, {"b1": True, "runner": "ackrun" if gen["kind"] == "ack" else "run", "trace_spec": gen.get("trace_spec")}))
 
+    for d in plan.get("direct", {}).get(tier, []):
+        batches.append((d["name"], None, {"direct": d["cmd"].format(seed=seed), "trace_spec": d.get("trace_spec")}))
+
     for name, scen, b in batches:
         trace = f"{wdir}/trace-{name}.ndjson"
-        rc, summary, hang, out = harness_run(scen, trace, b.get("run_timeout", 900), b.get("runner", "run"))
+        if b.get("direct"):
+            from check import run as shrun, BIN
+            rc, out = shrun(f"{BIN} {b['direct']} --out {trace}", b.get("run_timeout", 900))
+            summary, hang = [], None
+            for line in out.splitlines():
+                if line.startswith("SUMMARY "):
+                    summary = json.loads(line[8:])
+            if rc == 4:
+                # a panic inside the code under test is data, not a tool failure
+                path = f"{WORK}/replay/{prop}-{name}-panic.json"
+                json.dump({"property": prop, "verdict": "panic", "cmd": b["direct"], "output": out[-2000:]}, open(path, "w"))
+                res["violations"].append({"replay": path, "what": "the code under test panicked: " + out[-300:].strip().replace(chr(10), ' ')})
+                continue
+        else:
+            rc, summary, hang, out = harness_run(scen, trace, b.get("run_timeout", 900), b.get("runner", "run"))
         batch = {"batch": name, "runs": len(summary), "steps": sum(s["steps"] for s in summary), "stuck": sum(1 for s in summary if s["stuck"])}
         if hang is not None:
             batch["hang"] = hang["scenario"]["name"]
@@ -101,7 +118,7 @@ def execute(prop, tier, plan, seed, wdir):
         cov["divergence_samples"] += rep["div"][:3]
         cov["unmodelled_sites"] = sorted(set(cov["unmodelled_sites"]) | set(rep.get("unmodelled", [])))
         if len(cov["samples"]) < 4:
-            sc = scenario_of_run(scen, 1)
+            sc = scenario_of_run(scen, 1) if scen else {"direct": b.get("direct"), "summary": summary}
             if sc:
                 cov["samples"].append(brief_scenario(sc) if "cfg" in sc else sc)
         for v in rep["verdicts"]:
@@ -114,7 +131,7 @@ def execute(prop, tier, plan, seed, wdir):
                 reproduced[v["finding"]] += v["n"]
                 continue
             what = v["what"] if v["kind"] == "violation" else f"unlisted finding {v['finding']}: {v['what']}"
-            path = write_replay(prop, name, scen, v["run"], v)
+            path = write_replay(prop, name, scen, v["run"], v, extra=b.get("direct"))
             res["violations"].append({"replay": path, "what": f"{what} (batch {name}, run {v['run']}, step {v['i']}, {v['n']} step(s))"})
 
     cov["known_findings_reproduced"] = reproduced
